@@ -55,7 +55,7 @@ func Spec() *mon.Spec {
 
 func gen(g *mon.Gen) {
 	rng := g.Rng
-	per := g.Pick(6, 90)
+	per := g.Pick(6, 200)
 	for mask := 0; mask < 16; mask++ {
 		for i := 0; i < per; i++ {
 			g.Emit(&Case{Mask: mask, Seed: rng.Int63(), K: 1 + rng.Intn(12), Terminal: []string{"shutdown", "shutdown-inflight", "cancel", "both", "shutdown-replying", "shutdown-inflight"}[i%6], Yield: i%3 != 2, HDelay: rng.Intn(3)})
